@@ -34,6 +34,7 @@ import (
 
 	"github.com/haqq-network/haqq/crypto/ethsecp256k1"
 	cmn "github.com/haqq-network/haqq/precompiles/common"
+	haqqibc "github.com/haqq-network/haqq/ibc/testing"
 	haqqtypes "github.com/haqq-network/haqq/types"
 	"github.com/haqq-network/haqq/utils"
 	"github.com/haqq-network/haqq/x/evm/statedb"
@@ -49,6 +50,7 @@ type ICSCase struct {
 	Approve  string `json:"approve"`           // "" (none) | decimal limit (origin approves the contract first)
 	Receiver string `json:"receiver"`          // ok | bad
 	Timeout  string `json:"timeout,omitempty"` // "" (a height) | none (height and timestamp both zero) | timestamp
+	Edit     string `json:"edit,omitempty"`    // "" | inc | dec: the approval has a second allocation (another channel) which is then increased / decreased
 }
 
 func genICSCase(t *rapid.T) ICSCase {
@@ -60,6 +62,7 @@ func genICSCase(t *rapid.T) ICSCase {
 	c.Approve = rapid.SampledFrom([]string{"", "1000", "1000000000000000000", "999", "5000000000000000000"}).Draw(t, "approve")
 	c.Receiver = rapid.SampledFrom([]string{"ok", "ok", "ok", "bad"}).Draw(t, "receiver")
 	c.Timeout = rapid.SampledFrom([]string{"", "", "", "none", "timestamp"}).Draw(t, "timeout")
+	c.Edit = rapid.SampledFrom([]string{"", "", "inc", "dec"}).Draw(t, "edit")
 	if c.Shape == "direct" {
 		c.Role, c.Value = "origin", "0"
 	}
@@ -180,12 +183,40 @@ func runICS(t *testing.T, c ICSCase, class func(string)) (discs []icsDisc, nontr
 		caller = frame1
 	}
 	limit := new(big.Int)
+	icsOtherChannel := "channel-7"
+	if c.Edit != "" && c.Approve != "" && c.Shape != "direct" {
+		// a second transfer channel on the same connection, so that an approval can carry two allocations
+		p2 := haqqibc.NewTransferPath(e.H, e.B)
+		p2.EndpointA.ClientID, p2.EndpointB.ClientID = e.path.EndpointA.ClientID, e.path.EndpointB.ClientID
+		p2.EndpointA.ConnectionID, p2.EndpointB.ConnectionID = e.path.EndpointA.ConnectionID, e.path.EndpointB.ConnectionID
+		haqqibc.CreateChannels(e.coord, p2)
+		icsOtherChannel = p2.EndpointA.ChannelID
+		e.sync()
+	}
 	if c.Approve != "" && c.Shape != "direct" {
 		limit = bigOf(c.Approve)
 		alloc := []cmn.ICS20Allocation{{SourcePort: port, SourceChannel: channel, SpendLimit: []cmn.Coin{{Denom: denom, Amount: limit}}, AllowList: []string{}}}
+		if c.Edit != "" {
+			alloc = append(alloc, cmn.ICS20Allocation{SourcePort: port, SourceChannel: icsOtherChannel, SpendLimit: []cmn.Coin{{Denom: denom, Amount: big.NewInt(777)}}, AllowList: []string{}})
+		}
 		if res, vm := e.eth(pabi.ICS20Addr, big.NewInt(0), pabi.Pack("ics20", "approve", caller, alloc)); res.Code != 0 || vm != "" {
 			class("approve-refused")
 			limit = new(big.Int)
+		} else if c.Edit != "" {
+			// the signer edits the allocation of the OTHER channel; the one for the live channel must not move
+			method, want2 := "increaseAllowance", big.NewInt(777+5)
+			delta := big.NewInt(5)
+			if c.Edit == "dec" {
+				method, want2, delta = "decreaseAllowance", big.NewInt(777-7), big.NewInt(7)
+			}
+			res, vm := e.eth(pabi.ICS20Addr, big.NewInt(0), pabi.Pack("ics20", method, caller, port, icsOtherChannel, denom, delta))
+			if res.Code == 0 && vm == "" {
+				got := icsAllowances(e, caller, denom)
+				if bi(got, channel).Cmp(limit) != 0 || bi(got, icsOtherChannel).Cmp(want2) != 0 {
+					add("C04", "ics20-allowance-edit-wrong-allocation", fmt.Sprintf("%+v: after %s(%s, %s) the approvals are %v; expected %s: %s, %s: %s", c, method, icsOtherChannel, delta, got, channel, limit, icsOtherChannel, want2))
+				}
+				class("allowance-of-another-channel-edited:" + c.Edit)
+			}
 		}
 	}
 	allowance := func() *big.Int {
@@ -406,6 +437,38 @@ func runICS(t *testing.T, c ICSCase, class func(string)) (discs []icsDisc, nontr
 }
 
 const haqqibcFee = int64(150_000_000_000_000_000)
+
+// icsAllowances reads allowance(grantee, origin) and returns channel -> limit for the denomination.
+func icsAllowances(e *icsEnv, grantee common.Address, denom string) map[string]*big.Int {
+	out := map[string]*big.Int{}
+	res, err := e.app.Erc20Keeper.CallEVMWithData(e.H.GetContext(), e.origin.Hex, &pabi.ICS20Addr, pabi.Pack("ics20", "allowance", grantee, e.origin.Hex), false)
+	if err != nil {
+		return out
+	}
+	vals, err := pabi.ABI("ics20").Unpack("allowance", res.Ret)
+	if err != nil || len(vals) == 0 {
+		return out
+	}
+	bz, _ := json.Marshal(vals[0])
+	var raw []struct {
+		SourceChannel string `json:"sourceChannel"`
+		SpendLimit    []struct {
+			Denom  string   `json:"denom"`
+			Amount *big.Int `json:"amount"`
+		} `json:"spendLimit"`
+	}
+	if json.Unmarshal(bz, &raw) != nil {
+		return out
+	}
+	for _, a := range raw {
+		for _, s := range a.SpendLimit {
+			if s.Denom == denom {
+				out[a.SourceChannel] = s.Amount
+			}
+		}
+	}
+	return out
+}
 
 type icsAlloc struct {
 	Denom  string
